@@ -1492,3 +1492,89 @@ Proof.
     + rewrite (K6 eq_refl). exists r0. split; [reflexivity|]. eapply retry_clears_bindings; eauto.
     + apply K7. lia.
 Qed.
+
+(* ---------- a failing body read, whatever the body transformer ---------- *)
+
+Definition with_tf (tf : option err) (b : body_oracle) : body_oracle :=
+  mkBody (b_read b) tf (b_um_res b) (b_um_req b) (b_um_com b) (b_write b).
+
+(* Response.ToBytes: the transformer is consulted only after a clean read (`err == nil && ...`):
+   a read error is returned and recorded for EVERY transformer, installed or not, failing or not *)
+Lemma read_error_kept_for_every_transformer : forall b r e tf,
+  r_err r = None -> r_cached r = false -> r_present r = true -> b_read b = Some e ->
+  to_bytes (with_tf tf b) r = (set_cached true (set_err (Some e) r), Some e).
+Proof.
+  intros b r e tf E C P R. unfold to_bytes. rewrite E, C, P. cbn. rewrite R. reflexivity.
+Qed.
+
+(* ... hence obtaining the body fails, nothing is bound and the binding step returns an error, for
+   every transformer *)
+Lemma read_failure_surfaces_for_every_transformer : forall tg b r w e tf,
+  applicable tg r = Some w -> r_err r = None -> r_cached r = false -> b_read b = Some e ->
+  snd (parse_response_body tg (with_tf tf b) r) = Some e /\
+  r_err (fst (parse_response_body tg (with_tf tf b) r)) = Some e /\
+  r_result (fst (parse_response_body tg (with_tf tf b) r)) = r_result r /\
+  r_error (fst (parse_response_body tg (with_tf tf b) r)) = r_error r.
+Proof.
+  intros tg b r w e tf A E C R. pose proof (applicable_present _ _ _ A) as P.
+  rewrite parse_as_applicable, A. unfold unmarshal_body.
+  rewrite (read_error_kept_for_every_transformer b r e tf E C P R). cbn. auto.
+Qed.
+
+(* a response that already carries an error goes through the binding step unchanged *)
+Lemma parse_with_err : forall tg b r e, r_err r = Some e ->
+  parse_response_body tg b r = (r, Some e) \/ parse_response_body tg b r = (r, None).
+Proof.
+  intros tg b r e E. rewrite parse_as_applicable. destruct (applicable tg r) as [w|]; [|right; reflexivity].
+  left. unfold unmarshal_body, to_bytes. rewrite E. reflexivity.
+Qed.
+
+(* the auto-read of Client.roundTrip relies on ToBytes RECORDING the error (it drops the return
+   value): with auto-read on, a body that cannot be read leaves resp.Err set - for every
+   transformer - and that is what the round trip returns unless a later middleware raises *)
+Lemma auto_read_error_is_seen : forall fl cfg a s chk b e tf,
+  a_getbody a = None -> a_transport a = TResp s chk (with_tf tf b) -> Forall is_user (a_cli a) ->
+  c_autoread cfg = true -> autoread_status_ok s = true -> c_save cfg = false -> b_read b = Some e ->
+  exists r l, round_trip fl cfg a = (Some r, r_err r, l) /\ r_err r = last_wins (Some e) (a_cli a) /\
+              r_result r = false /\ r_error r = ENone.
+Proof.
+  intros fl cfg a s chk b e tf G T F AR SO Sv R. unfold round_trip, round_trip_with. rewrite G, T. cbn [receive].
+  set (r2 := mkResp true s chk None false false ENone).
+  change (set_err None (set_http true s chk fresh_resp)) with r2.
+  assert (auto_read (c_autoread cfg) autoread_status_ok (with_tf tf b) r2 = set_cached true (set_err (Some e) r2)) as AU.
+  { unfold auto_read. rewrite AR. cbn [r_err r2 is_some negb andb r_status]. rewrite SO.
+    rewrite (read_error_kept_for_every_transformer b r2 e tf eq_refl eq_refl eq_refl R). reflexivity. }
+  rewrite AU. rewrite (run_cli_digests_user fl cfg (a_cli a) _ _ F).
+  set (r3 := set_cached true (set_err (Some e) r2)).
+  assert (r_err r3 = Some e) as E3 by reflexivity.
+  assert (exists e4, parse_response_body (c_targets cfg) (with_tf tf b) r3 = (r3, e4) /\
+            r_err (match e4 with Some x => set_err (Some x) r3 | None => r3 end) = Some e) as (e4 & Pq & E5).
+  { destruct (parse_with_err (c_targets cfg) (with_tf tf b) r3 e E3) as [X|X]; rewrite X; eexists; split; reflexivity. }
+  rewrite Pq.
+  set (r5 := match e4 with Some x => set_err (Some x) r3 | None => r3 end) in *.
+  rewrite (handle_download_nosave cfg _ r5 Sv).
+  destruct (run_cli fl cfg (a_cli a) 0 r5) as [r6 l6] eqn:Rc.
+  pose proof (run_cli_user fl cfg (a_cli a) 0 r5 F) as U. rewrite Rc in U. cbn in U.
+  destruct U as (U1 & _ & _ & _ & _ & U6 & U7).
+  exists r6, (EvSend :: [] ++ l6). split; [reflexivity|]. split; [rewrite U1, E5; reflexivity|].
+  rewrite U6, U7. unfold r5. destruct e4; cbn; auto.
+Qed.
+
+(* the refactoring of the seeded change b-m2 (transformer run regardless of the read error) loses it *)
+Definition to_bytes_unguarded (b : body_oracle) (r : response) : response * option err :=
+  match r_err r with
+  | Some e => (r, Some e)
+  | None =>
+    if r_cached r then (r, None)
+    else if negb (r_present r) then (r, None)
+    else match b_tf b with              (* body, err = transform(body, ...) whatever err was *)
+         | Some e => (set_err (Some e) r, Some e)
+         | None => (set_cached true r, None)
+         end
+  end.
+
+Lemma unguarded_transformer_loses_read_error :
+  let b := mkBody (Some 7) None None None None None in
+  let r := mkResp true 200 None None false false ENone in
+  to_bytes_unguarded b r = (set_cached true r, None) /\ to_bytes b r = (set_cached true (set_err (Some 7) r), Some 7).
+Proof. vm_compute. split; reflexivity. Qed.
